@@ -37,6 +37,8 @@ def main(argv=None):
     except ImportError as e:
         print("no check for %s: %s" % (prop, e))
         return 2
+    import logging
+    logging.disable(logging.CRITICAL)   # streamz logs every user-function exception; they are expected here
     ctx = common.Ctx(prop, args.tier, seed, level=getattr(mod, "LEVEL", "proof"))
     try:
         if args.replay:
